@@ -54,13 +54,17 @@ pub fn factor(n: Uint, alg: Algo, prefs: &Preferences) -> Result<Vec<Uint>, Fact
 //! ---- annotated ----
 /// Factorizes an integer into a product of factors.
 pub fn factor(n: Uint, alg: Algo, prefs: &Preferences) -> (r: Result<Vec<Uint>, FactoringFailure>)
+    requires
+        small_algo(alg) ==> uv(n) < 0x1_0000_0000_0000_0000,
+        alg is Rho ==> uv(n) <= 0xffff_ffff_ffff_ffc0,
     ensures
         r is Ok ==> {
             let v = r->Ok_0;
-            &&& seq_prod(v@) % pow_w(16) == uv(n)
+            &&& seq_prod(v@) == uv(n)
             &&& sorted_uv(v@)
             &&& (uv(n) == 0 ==> v@ =~= seq![n])
-            &&& (uv(n) >= 1 ==> forall|i: int| 0 <= i < v@.len() ==> uv(#[trigger] v@[i]) != 0)
+            &&& (uv(n) == 1 ==> v@.len() == 0)
+            &&& (uv(n) >= 2 ==> forall|i: int| 0 <= i < v@.len() ==> uv(#[trigger] v@[i]) >= 2)
         },
 {
     if n.is_zero() {
@@ -70,31 +74,26 @@ pub fn factor(n: Uint, alg: Algo, prefs: &Preferences) -> (r: Result<Vec<Uint>, 
             assert(seq_prod(s) == uv(n) * seq_prod(s.subrange(1, 1)));
             assert(seq_prod(Seq::<Uint>::empty()) == 1);
             lemma_mul_one(uv(n) as int);
-            lemma_pow_w_pos(16);
-            vstd::arithmetic::div_mod::lemma_small_mod(0, pow_w(16));
             assert forall|v: Seq<Uint>| #[trigger] v.len() == 1 && v[0] == n implies v == s by { assert(v =~= s); }
         }
         return Ok(vec![n]);
     }
     let mut factors = vec![];
     let nred = ol_factor_trial_division(n, prefs, &mut factors);
+    let ghost f1 = factors@;
     // Create thread pool
     let tpool: Option<rayon::ThreadPool> = ol_factor_pool(prefs);
     let tpool = tpool.as_ref();
+    proof { lemma_fi_pre_facts(nred, alg); }
     factor_impl(nred, alg, prefs, &mut factors, tpool);
+    proof { lemma_factor_compose(f1, factors@, uv(n), uv(nred)); }
 
     check_factors(&n, &factors)?;
     let ghost f0 = factors@;
     ol_sort(&mut factors);
     proof {
         lemma_seq_prod_perm(f0, factors@);
-        lemma_pow_w_pos(16);
-        assert forall|i: int| 0 <= i < factors@.len() && uv(n) >= 1 implies uv(#[trigger] factors@[i]) != 0 by {
-            if uv(factors@[i]) == 0 {
-                lemma_seq_prod_zero(factors@, i);
-                vstd::arithmetic::div_mod::lemma_small_mod(0, pow_w(16));
-            }
-        }
+        lemma_perm_ge2(f0, factors@);
     }
     Ok(factors)
 }
